@@ -100,8 +100,8 @@ def infiltration(
     assert Infl >= 0
 
     ## Determine surface storage (if bunds are present) ##
-    if FieldMngt_Bunds:
-        # bunds on field
+    if FieldMngt_Bunds and (FieldMngt_zBund > 0.001):
+        # bunds on field (bunds of negligible height are treated as no bunds, as in rainfall_partition)
         if FieldMngt_zBund > 0.001:
             # Bund height too small to be considered
             InflTot = Infl + NewCond_SurfaceStorage
@@ -134,7 +134,7 @@ def infiltration(
                 ToStore = 0
                 RunoffIni = 0
 
-    elif FieldMngt_Bunds == False:
+    else:
         # No bunds on field
         if Infl > prof.Ksat[0]:
             # Infiltration limited by saturated hydraulic conductivity of top
